@@ -66,10 +66,14 @@ pub fn c13_commands(cx: &mut Ctx) {
         };
         // inside a transaction block, as the client was told by the previous ReadyForQuery
         let mut in_txn_next = false;
+        // has any statement of this client reached a server yet (session mode: it then holds one)
+        let mut forwarded_before = false;
+        let mut forwarded_now = false;
         for s in &c.steps {
             if s.op != "send" {
                 continue;
             }
+            forwarded_before = forwarded_before || forwarded_now;
             let in_txn = in_txn_next;
             in_txn_next = matches!(s.outcome, StepOutcome::Ready(b'T') | StepOutcome::Ready(b'E'));
             if in_txn {
@@ -88,6 +92,7 @@ pub fn c13_commands(cx: &mut Ctx) {
                     *t == q && u.first_seq >= s.start_seq && (s.done_seq == 0 || u.first_seq <= s.done_seq)
                 })
                 .collect();
+            forwarded_now = !forwarded.is_empty();
             let well_formed = |types: &[u8]| -> Option<&'static str> {
                 match types {
                     [b'C', b'Z'] => Some("ok"),
@@ -178,7 +183,8 @@ pub fn c13_commands(cx: &mut Ctx) {
                         break;
                     }
                     if !forwarded.is_empty() {
-                        let fp = if in_txn { "C13/command_forwarded/inside_transaction" } else { "C13/command_forwarded" };
+                        let session_holds_server = cx.pool_mode(&c.database, &c.user) == "session" && forwarded_before;
+                        let fp = if in_txn { "C13/command_forwarded/inside_transaction" } else if session_holds_server { "C13/command_forwarded/session_holds_server" } else { "C13/command_forwarded" };
                         cx.v("C13", "command_forwarded", fp, s.done_seq, format!("client {} step {}: the documented command {:?} was sent to server {}", c.id, s.idx, q, h.backend_conns[forwarded[0].0].host));
                         break;
                     }
